@@ -1,13 +1,15 @@
 """C17 -- watermark progress: the minimum over active upstream replicas is forwarded."""
 from props.start import *      # noqa
 from props.C06 import frontier_tasks, frontier_step, frontier_reset   # noqa
+from props.end import *        # noqa
 
 META = {
     'explanation': 'Watermark progress. (a) WatermarkFrontier::update as one inductive step from any invariant '
                    'state, with the *iff* direction: whenever the minimum over all replicas increased or became '
                    'defined, update returns it. (b) Start::next over N upstream replicas, every batch arrival '
                    'order: the watermarks observed downstream equal the running minimum over the replicas that '
-                   'have not yet ended their iteration, each before any later element.',
+                   'have not yet ended their iteration, each before any later element. (c) End::next hands every watermark '
+                   'to every replica of every downstream block, in every iteration.',
     'assumptions': ['IndexMap behaves as an insertion-ordered map (model table)',
                     'every upstream replica emits a grammar-valid, watermark-monotone script'],
     'trusted': ['mirsym MIR executor and its std model table', 'z3 / cvc5'],
@@ -16,7 +18,10 @@ META = {
 
 def TASKS(tier):
     # timeouts (adaptive batching) are not the subject here: see C05 / C18
-    return frontier_tasks(tier, progress=True) + [t for t in start_tasks(tier, 'start') if t.params.get('timed')]
+    # (c) the producer side: End broadcasts every watermark it is handed to every replica of every downstream block,
+    # in every iteration (a loop body sees the same event-time range again in each round)
+    en = [t for t in end_tasks(tier, 'end_watermarks', ('routing',)) if t.params['strategy'] in ('GroupBy', 'All')]
+    return frontier_tasks(tier, progress=True) + [t for t in start_tasks(tier, 'start') if t.params.get('timed')] + en
 
 
 def classify(t, v):
